@@ -29,6 +29,7 @@ const (
 	jobConfirm  = 3 // like single, but a watchdog hit is a violation (run alone)
 	jobBatch    = 4 // several single jobs answered with one sink (amortises the round trip)
 	jobGrowth   = 5 // C05 growth oracle: a ladder of parameters of one generator family (growth.go)
+	jobReuse    = 6 // C15 reuse oracle: option values built once, documents A, B, A (reuse.go)
 )
 
 type job struct {
@@ -89,6 +90,8 @@ func childMain() {
 				s.schedule(j.C, vh.NewRng(j.Seed), j.Thorough, j.Verbose)
 			case jobGrowth:
 				s.growth(j.C, j.Ladder, j.Verbose)
+			case jobReuse:
+				s.reuse(j.C, j.Verbose)
 			}
 			b, _ := json.Marshal(s)
 			w.Write(b)
